@@ -44,7 +44,7 @@ var (
 var neverExport = []string{
 	"runtime", "sync", "reflect", "unsafe", "os", "syscall", "internal/", "fmt", "log",
 	"time", "math/big", "crypto/", "hash/", "math/rand", "golang.org/x/crypto/", "math",
-	"github.com/btcsuite/btclog", "strconv", "unicode", "encoding/hex", "encoding/json",
+	"github.com/btcsuite/btclog", "strconv", "unicode", "encoding/json",
 	"github.com/decred/dcrd/dcrec/secp256k1", "github.com/aead/siphash", "net", "bufio",
 	"github.com/davecgh/go-spew", "github.com/syndtr/goleveldb", "path", "context", "iter",
 	"github.com/decred/dcrd/crypto/blake256", "compress/", "text/", "regexp", "testing",
